@@ -443,6 +443,27 @@ pub fn check_text(src: &str, run: bool) -> TextResult {
     r
 }
 
+fn eval_zoo(src: &str, expected: Option<&str>) -> Eval {
+    let mut ev = eval_text(src, "zoo", false);
+    ev.nontrivial = true;
+    if ev.fail.is_some() {
+        return ev;
+    }
+    let out = kx::run(src, &RunOpts { limit_ms: Some(2000), ..Default::default() });
+    let msg = match &out.outcome {
+        kx::Outcome::Ok(_) => String::new(),
+        kx::Outcome::RunErr(m) | kx::Outcome::CompileErr(m, _) => m.clone(),
+    };
+    if let Some(m) = INTERNAL_FAULTS.iter().find(|m| msg.contains(**m)) {
+        ev.fail = Some(Fail::new(format!("c05:internal-fault:{m}"), format!("running reported an internal fault: {}\n{src}", msg.chars().take(300).collect::<String>())));
+    } else if let Some(e) = expected {
+        if out.stdout != e {
+            ev.fail = Some(Fail::new("c05:zoo-output", format!("expected stdout {e:?}, got {:?} ({})\n{src}", out.stdout, out.outcome.class())));
+        }
+    }
+    ev
+}
+
 fn spins(src: &str) -> bool {
     ["repeat", "cycle", "generate", "resize", "fill", "expanded", "pow", "import", "stdin", "yield"].iter().any(|w| src.contains(w)) || src.contains("..")
 }
@@ -714,6 +735,13 @@ fn run_shard(ctx: &mut Ctx) {
     // corpus
     let corpus = crate::corpus::load();
     ctx.explore_iter("corpus", corpus.iter(), |c| json!({"kind": "text", "src": c.text, "name": c.name}), |c| eval_text(&c.text, "corpus", c.runnable));
+    // the hand-written zoo: besides the clauses above, exact output
+    ctx.explore_iter(
+        "zoo",
+        corpus.iter().filter(|c| c.origin == "zoo"),
+        |c| json!({"kind": "zoo", "src": c.text, "name": c.name, "expected": c.expected}),
+        |c| eval_zoo(&c.text, c.expected.as_deref()),
+    );
     // determinism across processes on the corpus: compile in a forked child, compare hashes
     for (i, c) in corpus.iter().enumerate() {
         if !ctx.mine(i as u64) || i % ctx.tier.pick(6, 1) != 0 {
@@ -782,6 +810,7 @@ fn run_shard(ctx: &mut Ctx) {
 
 fn replay(case: &Value) -> Option<Fail> {
     match case["kind"].as_str()? {
+        "zoo" => eval_zoo(case["src"].as_str()?, case["expected"].as_str()).fail,
         "text" | "xprocess" => check_text(case["src"].as_str()?, true).fail,
         "limit" => eval_limit(case["limit"].as_str()?, case["n"].as_u64()? as usize).fail,
         _ => None,
